@@ -510,6 +510,25 @@ pub fn supervise(ctx: &Ctx, n_cases: usize, only: Option<Vec<usize>>) -> RunOutp
 // merge, findings, replay files, evidence
 // ---------------------------------------------------------------------------
 
+/// Digest of a whole run's event log, keyed by case index (never by completion order).
+pub fn run_digest(results: &[CaseResult]) -> u64 {
+    let mut digest = Digest::new();
+    for r in results {
+        digest.add(r.index as u64);
+        digest.add(r.digest);
+        for k in &r.keys {
+            digest.add(*k);
+        }
+        digest.add(r.evaluations);
+        digest.add(r.sim_words);
+        for v in &r.violations {
+            digest.add_str(&v.class);
+            digest.add_str(&v.detail);
+        }
+    }
+    digest.0
+}
+
 pub fn verif_dir() -> std::path::PathBuf {
     std::env::var("VERIF_DIR").map(Into::into).unwrap_or_else(|_| std::env::current_dir().unwrap())
 }
